@@ -1,4 +1,7 @@
 import FFVerif.Props.C12
+import FFVerif.Props.C08Inv
+import FFVerif.Props.C12Etm
+import FFVerif.Props.C10Shifts
 import FFVerif.Pins.pinIdentityElementIndex
 import FFVerif.Pins.pinGgmExpand
 #print axioms FFVerif.C12.cm_energy_offset
@@ -9,5 +12,37 @@ import FFVerif.Pins.pinGgmExpand
 #print axioms FFVerif.C12.ff_basis_independent_real
 #print axioms FFVerif.C12.cm_frame_covariance
 #print axioms FFVerif.C12.ff_frame_independent
+#print axioms FFVerif.C08.infidelity_energy_offset
+#print axioms FFVerif.C08.infidelity_frame_independent
+#print axioms FFVerif.C08.infidelity_frame_independent'
+#print axioms FFVerif.C08.frame_identity_element
+#print axioms FFVerif.C08.infidelity_basis_independent
+#print axioms FFVerif.C08.infidelity_basis_change_traceless
+#print axioms FFVerif.C08.infidelity_basis_independent_traceless
+#print axioms FFVerif.C08.infidelity_branches_agree
+#print axioms FFVerif.C12.toComplexMat_toMatrix
+#print axioms FFVerif.C12.fn_toComplexMat
+#print axioms FFVerif.C12.basis_transition_orthogonal
+#print axioms FFVerif.C12.basisTransition_reorder
+#print axioms FFVerif.C12.cm_basis_change_real
+#print axioms FFVerif.C12.decay_amplitudes_basis_change
+#print axioms FFVerif.C12.decay_amplitudes_basis_change_matrix
+#print axioms FFVerif.C12.cumulant_basis_change_of_mix
+#print axioms FFVerif.C12.cumulant_basis_change_of_mix_opt
+#print axioms FFVerif.C12.cumulant_basis_change
+#print axioms FFVerif.C12.cumulant_single_qubit_basis_change
+#print axioms FFVerif.C12.etm_basis_change
+#print axioms FFVerif.C12.etm_sum_basis_change
+#print axioms FFVerif.C12.process_fidelity_basis_independent
+#print axioms FFVerif.C12.cumulant_trace_basis_independent
+#print axioms FFVerif.C12.infidelity_eq_neg_trace_model_cumulant
+#print axioms FFVerif.C12.etm_basis_change_from_scratch
+#print axioms FFVerif.C10.secondOrderFF_loop_basis_change
+#print axioms FFVerif.C10.secondOrderFF_basis_change_of_mix
+#print axioms FFVerif.C10.secondOrderFF_basis_change
+#print axioms FFVerif.C10.frequency_shifts_basis_change
+#print axioms FFVerif.C10.frequency_shifts_basis_change_matrix
+#print axioms FFVerif.C10.frequency_shifts_basis_change_from_scratch
+#print axioms FFVerif.C10.etm_basis_change_second_order_from_scratch
 #print axioms FFVerif.Pins.pinIdentityElementIndex
 #print axioms FFVerif.Pins.pinGgmExpand
